@@ -1048,3 +1048,88 @@ def sibling_param_agreement(ctx, rule, siblings, floor):
                 small, big = (sa[callee], sb[callee]) if len(sa[callee]) <= len(sb[callee]) else (sb[callee], sa[callee])
                 R.check(small <= big, rule, "%s~%s:%s" % (la, lb, callee), "%s and %s pass their parameters to %s alike" % (la, lb, callee), "%s and %s pass different parameters to %s: %s vs %s" % (la, lb, callee, sorted(sa[callee]), sorted(sb[callee])), None)
     R.floor(rule, n, floor, "callees / structs shared by sibling functions")
+
+
+HTTP_STATUS = {
+    "internal_error": "INTERNAL_SERVER_ERROR", "error_response": "INTERNAL_SERVER_ERROR", "host_not_allowed": "FORBIDDEN",
+    "method_not_allowed": "METHOD_NOT_ALLOWED", "too_large": "PAYLOAD_TOO_LARGE", "malformed": "BAD_REQUEST",
+    "unsupported_content_type": "UNSUPPORTED_MEDIA_TYPE", "too_many_requests": "TOO_MANY_REQUESTS", "denied": "FORBIDDEN",
+    "ok_response": "OK", "from_method_response": "OK",
+}
+
+
+def http_status_table(ctx, rule, names):
+    """each refusal helper of transport::http::response builds its response with its own status code, directly (a helper
+    re-implemented on top of from_method_response / ok_response answers 200)"""
+    F, R = ctx.F, ctx.R
+    for nm in names:
+        b = F.one(r"^jsonrpsee_server::transport::http::response::%s$" % nm)
+        R.fn(b)
+        want = HTTP_STATUS[nm]
+        got = set()
+        for c in b.calls:
+            for a in c.args:
+                k = op_const(a)
+                if k and re.search(r"StatusCode::(\w+)$", k.get("name", "") or ""):
+                    got.add(re.search(r"StatusCode::(\w+)$", k["name"]).group(1))
+        for blk in b.blocks:
+            for st in blk["st"]:
+                if st["s"] == "assign" and st["rv"]["k"] == "use":
+                    k = op_const(st["rv"]["op"])
+                    if k and re.search(r"StatusCode::(\w+)$", k.get("name", "") or ""):
+                        got.add(re.search(r"StatusCode::(\w+)$", k["name"]).group(1))
+        via = sorted({short(c.name() or "") for c in b.calls_to(r"transport::http::response::(from_method_response|ok_response|from_template)$") if not (c.name() or "").endswith("from_template")})
+        R.check(got == {want} and not via, rule, "status:%s" % nm, "response::%s() answers %s" % (nm, want), "response::%s() answers with status %s%s instead of %s: the refusal reaches the client as another HTTP status (an oversized or failed request acknowledged with 200)" % (nm, sorted(got) or "?", (" via " + ",".join(via)) if via else "", want), "%s:%d" % (b.file, b.lo))
+
+
+def response_flag_matches_json(ctx, rule):
+    """`MethodResponse::is_success()` is what the subscription machinery trusts (accept() builds a sink only for a
+    successful response; the close task is armed only then): in every constructor the `success_or_error` flag of a
+    MethodResponse agrees with the payload that was serialised into its json - a response whose json is an *error*
+    object (built with error/error_borrowed, incl. the oversize / internal-error replacements) is flagged Failed."""
+    F, R = ctx.F, ctx.R
+    tr = ctx.tracer(follow_callers=False, follow_fields=False, inline_calls=False)
+    n = 0
+    for b in F.real_bodies():
+        if not re.search(r"^jsonrpsee_core::server::method_response::MethodResponse::(response|error|subscription_response|subscription_error|notification)$", b.path):
+            continue
+        R.fn(b)
+        for bi, blk in enumerate(b.blocks):
+            if blk.get("cleanup") or bi not in b.reachable:
+                continue
+            for st in blk["st"]:
+                if st["s"] != "assign" or st["rv"]["k"] != "agg" or not (st["rv"].get("adt") or "").endswith("method_response::MethodResponse") or "json" not in st["rv"]["fields"]:
+                    continue
+                n += 1
+                ordn = n
+                fl = st["rv"]["ops"][st["rv"]["fields"].index("success_or_error")]
+                js = st["rv"]["ops"][st["rv"]["fields"].index("json")]
+                flag = sorted({(l.detail.get("variant") if l.kind == "agg" else leaf_str(l)[:60]) for l in tr.origins(b, fl)})
+                # is the json the serialisation of an error payload?
+                err_json = False
+                for l in tr.origins(b, js):
+                    if l.kind == "call" and re.search(r"to_raw_value$", l.detail["callee"] or ""):
+                        for l2 in tr.origins(b, l.detail["args"][0]):
+                            if l2.kind == "call" and re.search(r"Response::<.*>::new$", l2.detail["callee"] or ""):
+                                for l3 in tr.origins(b, l2.detail["args"][0]):
+                                    if l3.kind == "call" and re.search(r"ResponsePayload::<.*>::(error|error_borrowed)$", l3.detail["callee"] or ""):
+                                        err_json = True
+                if err_json:
+                    R.check(flag == ["Failed"], rule, "%s:flag#%d" % (fkey(b), ordn), "an error json is flagged Failed", "%s builds a response whose json is an error object but whose success flag is %s: is_success() can be true for an error reply, so a subscription whose accept response was replaced by an error (too big) still gets a live sink and its notifications go out" % (short(b.path), flag), "%s:%d" % (b.file, st["sp"][0]))
+                else:
+                    R.ok(rule, "%s:flag#%d" % (fkey(b), ordn), "flag %s for a payload-derived json" % flag, "%s:%d" % (b.file, st["sp"][0]))
+    R.floor(rule, n, 3, "MethodResponse constructions")
+
+
+def read_task_receive_is_cancel_safe(ctx, rule):
+    """the client's read task multiplexes the transport receive with other events in a select loop; a WebSocket receive
+    is not cancel-safe (header and payload are read over several awaits into a buffer owned by the future), so the
+    in-flight receive must outlive a lost select: `TransportReceiverT::receive` is not polled as a branch of the loop
+    itself but inside a stream/closure that is kept across iterations (stream::unfold) and polled with next()."""
+    F, R = ctx.F, ctx.R
+    b = F.one(r"^jsonrpsee_core::client::async_client::read_task::\{closure#0\}$")
+    R.fn(b)
+    direct = b.calls_to(r"TransportReceiverT::receive$")
+    nested = [c for x in F.nested(b, include_self=False) for c in x.calls_to(r"TransportReceiverT::receive$")]
+    kept = b.calls_to(r"stream::unfold$|stream::(poll_fn|repeat_with|once)$")
+    R.check(not direct and bool(nested) and bool(kept), rule, "read_task:receive-kept-across-iterations", "the transport receive lives in a stream kept across loop iterations", "read_task polls receiver.receive() directly as a branch of its select loop (direct=%d, wrapped=%d): when another branch wins while a message is half received, the partial frame is dropped, the stream desynchronises and a response/notification the server sent is lost" % (len(direct), len(nested)), where(direct[0]) if direct else "%s:%d" % (b.file, b.lo))
